@@ -21,7 +21,7 @@ use crate::dfa::Dfa;
 use crate::expression::Expression;
 use itertools::Itertools;
 use regex::Regex;
-use std::cmp::Ordering;
+use std::cmp::{Ordering, Reverse};
 use std::fmt::{Display, Formatter, Result};
 
 pub struct RegExp<'a> {
@@ -53,12 +53,29 @@ impl<'a> RegExp<'a> {
                         .is_some_and(|regex| Self::regex_matches_all_test_cases(&regex, test_cases));
 
                     if !is_matching {
-                        let mut exprs = vec![];
-                        for cluster in grapheme_clusters {
-                            let literal = Expression::new_literal(cluster, config);
-                            exprs.push(literal);
-                        }
-                        ast = Expression::new_alternation(exprs, config);
+                        // As a last resort, every test case becomes an alternative of its own.
+                        // An alternative matches exactly as many characters as its test case has,
+                        // so trying the alternatives of longer test cases first makes a search
+                        // always return the entire test case. The number of graphemes must not be
+                        // used for that because a converted repetition counts as one grapheme.
+                        let mut literals = test_cases
+                            .iter()
+                            .map(|it| it.chars().count())
+                            .zip(grapheme_clusters)
+                            .map(|(char_count, cluster)| {
+                                (char_count, Expression::new_literal(cluster, config))
+                            })
+                            .collect_vec();
+                        literals.sort_by_key(|(char_count, _)| Reverse(*char_count));
+                        ast = Expression::Alternation(
+                            literals
+                                .into_iter()
+                                .map(|(_, literal)| literal)
+                                .collect_vec(),
+                            config.is_capturing_group_enabled,
+                            config.is_output_colorized,
+                            config.is_verbose_mode_enabled,
+                        );
                     }
                 }
             }
